@@ -62,6 +62,9 @@ DEFAULT_KNOBS = dict(
     p_from_any=0.0,
     p_event_obj=0.0,
     p_event_decl=0.0,
+    p_decl_style=0.0,
+    p_or_group=0.0,
+    p_devent=0.0,
     p_attach_style=0.0,
     p_awaitable=0.0,
     p_prop_guard=0.0,
@@ -209,12 +212,41 @@ def gen_program(rnd, k, idx=0, name=None):
         if decl:
             prog["event_decl"] = sorted(decl)
             seen_assign.update(decl)
+    if rnd.random() < k["p_or_group"]:
+        # ``ev = a.to(b, ...) | c.to(d, ...)``: several transitions composed into one event attribute
+        cands = sorted(e for e in events if e not in seen_assign and sum(1 for t in trans if t["events"] == [e]) >= 2)
+        if cands:
+            e = rnd.choice(cands)
+            members = [t for t in trans if t["events"] == [e]][:3]
+            rest = [t for t in trans if not any(t is m_ for m_ in members)]
+            at = rnd.randrange(len(rest) + 1)
+            for m_ in members:
+                m_["orgroup"] = e
+            trans[:] = rest[:at] + members + rest[at:]
+            seen_assign.add(e)
+    if rnd.random() < k["p_devent"]:
+        # ``@a.to(b)`` used as a decorator: the function's name becomes the event and the function itself
+        # is an ``on`` callback of that transition
+        cands = [t for t in trans if len(t["events"]) == 1 and t["events"][0] not in seen_assign
+                 and not t.get("orgroup")]
+        if cands:
+            t = rnd.choice(cands)
+            e = t["events"][0]
+            t["devent"] = True
+            t.setdefault("on", []).append(e)
+            prog["cbs"][f"machine.{e}"] = {"group": "on", "sig": basic_sig(rnd), "style": "devent"}
+            seen_assign.add(e)
     for t in trans:
         if len(t["events"]) == 1 and rnd.random() < k["p_assign_style"] and t["events"][0] not in seen_assign:
             t["assign"] = t["events"][0]
             seen_assign.add(t["events"][0])
             if rnd.random() < k["p_event_obj"]:
                 t["assign_event"] = True
+    if k["p_decl_style"] > 0:
+        for t in trans:
+            if rnd.random() < k["p_decl_style"]:
+                # ``b.from_(a, ...)`` / ``a.to.itself(...)`` instead of ``a.to(b, ...)``
+                t["decl"] = "itself" if t["src"] == t["dst"] and rnd.random() < 0.6 else "from"
     events = [e for e in events if any(e in t["events"] for t in trans + anyd)]
     prog["events"] = events
 
@@ -290,6 +322,8 @@ def gen_program(rnd, k, idx=0, name=None):
             have = [g for g in ("before", "on", "after") if t.get(g)]
             if have and rnd.random() < k["p_multi_group_name"]:
                 nm = rnd.choice(t[rnd.choice(have)])
+                if (prog["cbs"].get("machine." + nm) or {}).get("style") == "devent":
+                    continue  # that name is the event trigger itself
                 for g in ("before", "on", "after"):
                     if rnd.random() < 0.6:
                         add_unique(t.setdefault(g, []), nm)
@@ -345,6 +379,8 @@ def assign_styles(rnd, prog, p):
             continue
         name = c.split(".", 1)[1]
         if len(provs[name]) != 1 or name in conv or name.startswith(("on_enter_", "on_exit_")):
+            continue
+        if prog["cbs"][c].get("style"):
             continue
         uses_t = [(t, g) for t in prog["trans"] + prog.get("any", [])
                   for g in ("validators", "cond", "unless", "before", "on", "after") if name in t.get(g, [])]
